@@ -105,103 +105,10 @@ def describe(ev):
     return type(ev).__name__
 
 
-def check(run):
-    prog = run.prog
-    classes = explainer_classes(prog)
-    run.need(len(classes) >= 4, f"only {len(classes)} explainer classes discovered (expected >= 4)")
-    mutators = mutating_methods(prog, "TRACKER")
-    n_fallible = 0
-    for cls in classes:
-        roles = field_roles(prog, cls)
-        est = estimate_fields(prog, cls, roles)
-        cb = callback_fields(roles)
-        run.need(est, f"no estimate state inferred for {cls.name}")
-        run.need(len(cb) >= 3, f"callback roles of {cls.name} incomplete: {sorted(cb)}")
-        for method in ENTRY:
-            owner, fn = prog.find_method(cls, method)
-            if fn is None:
-                continue
-            s = prog.summarise(cls, method)
-            fq = f"{cls.name}.{method}"
-            run.analysed_fn(fq)
-            try:
-                ps = paths(s.events, unroll=1, limit=5000)
-            except ir.Unsupported as e:         # nested explicit loops: the fixpoint dataflow below decides alone
-                ps = []
-                run.notes.setdefault("path_enumeration_skipped", []).append(f"{fq}: {e}")
-            run.analysed["paths"] += len(ps)
-            found = {}
-            fall_sites = set()
-            for p in ps:
-                committed = None
-                for ev in p.events:
-                    k = classify(ev, est, cb, mutators)
-                    if k == "fallible":
-                        fall_sites.add(id(ev))
-                        if committed is not None:
-                            key = (id(committed), id(ev))
-                            found.setdefault(key, (committed, ev))
-                    elif k == "commit" and committed is None:
-                        committed = ev
-            fall_sites |= {id(e) for e, _ in walk(s.events) if classify(e, est, cb, mutators) == "fallible"}
-            # fixpoint dataflow over the effect tree (all loop iteration counts); must agree with the paths
-            for committed, ev in order_dataflow(s.events, lambda e: classify(e, est, cb, mutators)):
-                found.setdefault((id(committed), id(ev)), (committed, ev))
-            n_fallible += len(fall_sites)
-            run.analysed["call_sites"] += len(fall_sites)
-            if not found:
-                run.ok("ORDER", fq, f"{len(ps)} paths + fixpoint dataflow, {len(fall_sites)} fallible call sites, no commit precedes any")
-            for committed, ev in found.values():
-                construct = f"commit {run.stmt_text(s.path, committed.line) or describe(committed)} precedes " \
-                            f"{describe(ev)}"
-                run.fail("ORDER", fq, f"{s.path}:{committed.line}", fq, construct,
-                         f"estimate state is modified at line {committed.line} ({describe(committed)}) before the "
-                         f"fallible call {describe(ev)} at line {ev.line}: an exception there leaves a half-applied "
-                         f"observation")
-            # exception absorption
-            for ev, ctx in walk(s.events, structural=True):
-                if isinstance(ev, ir.Try):
-                    body_fallible = [e for e, _ in walk(ev.body) if classify(e, est, cb, mutators) == "fallible"]
-                    if not body_fallible:
-                        continue
-                    for h in ev.handlers:
-                        reraises = bool(h.body) and isinstance(h.body[-1], ir.Raise)
-                        run.check(reraises, "PROPAGATE", f"{fq}:try", f"{s.path}:{h.line}", fq,
-                                  f"handler {'/'.join(h.exc)} absorbs {describe(body_fallible[0])}",
-                                  f"an exception of {describe(body_fallible[0])} is caught by "
-                                  f"`except {'/'.join(h.exc)}` and not re-raised", "handler re-raises")
-    # the imputers the explainers build by default stand between the explainer and two of its callbacks (model,
-    # storage): an exception they raise inside impute must come out of impute
-    for name in ("MarginalImputer", "DefaultImputer"):
-        K = prog.find_class(name)
-        if K is None or prog.find_method(K, "impute")[1] is None:
-            continue
-        try:
-            # the objects handed to the constructor (model function, storage) are the user's: calls on them can fail
-            cbi = {f for f, t in prog.summarise(K, "__init__").fields.items()
-                   if any(x[0] == "param" for x in ir.subterms(t)) and "." not in f}
-            cbi |= callback_fields(field_roles(prog, K))
-            si = prog.summarise(K, "impute")
-        except ir.Unsupported:
-            continue
-        fqi = f"{name}.impute"
-        run.analysed_fn(fqi)
-
-        def user_call(e):
-            return isinstance(e, ir.Call) and isinstance(e.callee, str) and e.callee.startswith("self.") and \
-                e.callee[5:].split(".")[0] in cbi
-        for ev, ctx in walk(si.events, structural=True):
-            if isinstance(ev, ir.Try):
-                inside = [e for e, _ in walk(ev.body) if user_call(e)]
-                if not inside:
-                    continue
-                for h in ev.handlers:
-                    reraises = bool(h.body) and isinstance(h.body[-1], ir.Raise)
-                    run.check(reraises, "PROPAGATE", f"{fqi}:try", f"{si.path}:{h.line}", fqi,
-                              f"handler {'/'.join(h.exc)} absorbs {describe(inside[0])}",
-                              f"an exception of {describe(inside[0])} inside the imputer is caught by "
-                              f"`except {'/'.join(h.exc)}` and not re-raised: the explainer goes on as if the callback had "
-                              f"answered", "handler re-raises")
+def _package_scans(run, prog):
+    """Package-wide syntactic clauses (finally blocks, __exit__ methods, lazily driven callbacks): evaluated first, so that
+    what they find stands even when the per-class analysis below cannot decide."""
+    import ast
     # a `return` / `break` / `continue` inside a `finally` block discards the exception in flight: a failing
     # callback (or metric, model, storage) would then look like a normal return and the observation is committed
     import ast
@@ -334,6 +241,106 @@ def check(run):
                  f"values than asked for come back and the explanation is committed")
     if not lazy:
         run.ok("PROPAGATE", "package.lazy-callbacks", f"{n_lazy} map / filter / itertools calls: none drives a user callback")
+
+
+def check(run):
+    prog = run.prog
+    _package_scans(run, prog)
+    classes = explainer_classes(prog)
+    run.need(len(classes) >= 4, f"only {len(classes)} explainer classes discovered (expected >= 4)")
+    mutators = mutating_methods(prog, "TRACKER")
+    n_fallible = 0
+    for cls in classes:
+        roles = field_roles(prog, cls)
+        est = estimate_fields(prog, cls, roles)
+        cb = callback_fields(roles)
+        run.need(est, f"no estimate state inferred for {cls.name}")
+        run.need(len(cb) >= 3, f"callback roles of {cls.name} incomplete: {sorted(cb)}")
+        for method in ENTRY:
+            owner, fn = prog.find_method(cls, method)
+            if fn is None:
+                continue
+            s = prog.summarise(cls, method)
+            fq = f"{cls.name}.{method}"
+            run.analysed_fn(fq)
+            try:
+                ps = paths(s.events, unroll=1, limit=5000)
+            except ir.Unsupported as e:         # nested explicit loops: the fixpoint dataflow below decides alone
+                ps = []
+                run.notes.setdefault("path_enumeration_skipped", []).append(f"{fq}: {e}")
+            run.analysed["paths"] += len(ps)
+            found = {}
+            fall_sites = set()
+            for p in ps:
+                committed = None
+                for ev in p.events:
+                    k = classify(ev, est, cb, mutators)
+                    if k == "fallible":
+                        fall_sites.add(id(ev))
+                        if committed is not None:
+                            key = (id(committed), id(ev))
+                            found.setdefault(key, (committed, ev))
+                    elif k == "commit" and committed is None:
+                        committed = ev
+            fall_sites |= {id(e) for e, _ in walk(s.events) if classify(e, est, cb, mutators) == "fallible"}
+            # fixpoint dataflow over the effect tree (all loop iteration counts); must agree with the paths
+            for committed, ev in order_dataflow(s.events, lambda e: classify(e, est, cb, mutators)):
+                found.setdefault((id(committed), id(ev)), (committed, ev))
+            n_fallible += len(fall_sites)
+            run.analysed["call_sites"] += len(fall_sites)
+            if not found:
+                run.ok("ORDER", fq, f"{len(ps)} paths + fixpoint dataflow, {len(fall_sites)} fallible call sites, no commit precedes any")
+            for committed, ev in found.values():
+                construct = f"commit {run.stmt_text(s.path, committed.line) or describe(committed)} precedes " \
+                            f"{describe(ev)}"
+                run.fail("ORDER", fq, f"{s.path}:{committed.line}", fq, construct,
+                         f"estimate state is modified at line {committed.line} ({describe(committed)}) before the "
+                         f"fallible call {describe(ev)} at line {ev.line}: an exception there leaves a half-applied "
+                         f"observation")
+            # exception absorption
+            for ev, ctx in walk(s.events, structural=True):
+                if isinstance(ev, ir.Try):
+                    body_fallible = [e for e, _ in walk(ev.body) if classify(e, est, cb, mutators) == "fallible"]
+                    if not body_fallible:
+                        continue
+                    for h in ev.handlers:
+                        reraises = bool(h.body) and isinstance(h.body[-1], ir.Raise)
+                        run.check(reraises, "PROPAGATE", f"{fq}:try", f"{s.path}:{h.line}", fq,
+                                  f"handler {'/'.join(h.exc)} absorbs {describe(body_fallible[0])}",
+                                  f"an exception of {describe(body_fallible[0])} is caught by "
+                                  f"`except {'/'.join(h.exc)}` and not re-raised", "handler re-raises")
+    # the imputers the explainers build by default stand between the explainer and two of its callbacks (model,
+    # storage): an exception they raise inside impute must come out of impute
+    for name in ("MarginalImputer", "DefaultImputer"):
+        K = prog.find_class(name)
+        if K is None or prog.find_method(K, "impute")[1] is None:
+            continue
+        try:
+            # the objects handed to the constructor (model function, storage) are the user's: calls on them can fail
+            cbi = {f for f, t in prog.summarise(K, "__init__").fields.items()
+                   if any(x[0] == "param" for x in ir.subterms(t)) and "." not in f}
+            cbi |= callback_fields(field_roles(prog, K))
+            si = prog.summarise(K, "impute")
+        except ir.Unsupported:
+            continue
+        fqi = f"{name}.impute"
+        run.analysed_fn(fqi)
+
+        def user_call(e):
+            return isinstance(e, ir.Call) and isinstance(e.callee, str) and e.callee.startswith("self.") and \
+                e.callee[5:].split(".")[0] in cbi
+        for ev, ctx in walk(si.events, structural=True):
+            if isinstance(ev, ir.Try):
+                inside = [e for e, _ in walk(ev.body) if user_call(e)]
+                if not inside:
+                    continue
+                for h in ev.handlers:
+                    reraises = bool(h.body) and isinstance(h.body[-1], ir.Raise)
+                    run.check(reraises, "PROPAGATE", f"{fqi}:try", f"{si.path}:{h.line}", fqi,
+                              f"handler {'/'.join(h.exc)} absorbs {describe(inside[0])}",
+                              f"an exception of {describe(inside[0])} inside the imputer is caught by "
+                              f"`except {'/'.join(h.exc)}` and not re-raised: the explainer goes on as if the callback had "
+                              f"answered", "handler re-raises")
     from .c06 import depends_on
     depends_on(run, "C12", {"FORMULA", "NOMUT"}, only=lambda rule, inst: inst.startswith(("N1", "G", "getters", "nomut")) or True)  # reading a tracker (get / get_normalized) writes nothing the caller holds
     depends_on(run, "C05", {"AVERAGE"}, only=lambda rule, inst: "acc-init" in inst or inst.endswith(".result"))     # accumulators of a run are not the published estimate
